@@ -164,13 +164,13 @@ fn big_pair(k: usize, rng: &mut Rng64) -> BigPair {
 }
 
 /// The three parts of a big pair are emitted at different places of the stream (the runner shards the case
-/// file into contiguous chunks). part 0: limited operator with limits {size-1, size, huge}; part 1: dry run
+/// file into contiguous chunks). part 0: limited operator with limits {size-1, size, usize::MAX} (+ the fused entry point with flips at a limit in the middle and usize::MAX); part 1: dry run
 /// with {count-1, count, huge}; part 2: cmp_implies against the big function minus / plus one valuation and
 /// against itself. Even k: (small, big); odd k: (big, small); `both_orders` adds the other order.
 fn big_emit(p: &BigPair, part: usize, both_orders: bool, rng: &mut Rng64, out: &mut Out) {
     let k = p.k;
     let conns = [8u32, 14, 6, 11, 4, 9];
-    let huge = (1u64 << 40).to_string();
+    let huge = usize::MAX.to_string();
     if part < 2 {
         let mut orders = vec![if k % 2 == 0 { (p.small.clone(), p.big.clone()) } else { (p.big.clone(), p.small.clone()) }];
         if both_orders { orders.push(if k % 2 == 0 { (p.big.clone(), p.small.clone()) } else { (p.small.clone(), p.big.clone()) }); }
@@ -183,10 +183,24 @@ fn big_emit(p: &BigPair, part: usize, both_orders: bool, rng: &mut Rng64, out: &
                 for limit in [(rsize.max(1) - 1).to_string(), rsize.to_string(), huge.clone()] {
                     run("C05.blim", &[table.clone(), c.to_string(), l.clone(), r.clone(), limit], out);
                 }
+                if j == 0 {
+                    // the fused entry point with flips: a limit in the middle of the run, and no limit
+                    let (fl, fr, fo) = (Some(18usize), Some(4usize), Some(19usize));
+                    let fsize = catch(|| Bdd::fused_binary_flip_op((&lb, flip_var(fl)), (&rb, flip_var(fr)), flip_var(fo), table_fn(&table))).map(|b| b.size()).unwrap_or(2);
+                    for limit in [(fsize / 2).to_string(), huge.clone()] {
+                        run("C05.lim", &[table.clone(), c.to_string(), l.clone(), r.clone(), fmt_optvar(fl), fmt_optvar(fr), fmt_optvar(fo), limit], out);
+                    }
+                }
             } else {
                 let count = catch(|| Bdd::check_binary_op(usize::MAX, &lb, &rb, table_fn(&table))).flatten().map(|x| x.1).unwrap_or(0);
                 for limit in [(count.max(1) - 1).to_string(), count.to_string(), huge.clone()] {
                     run("C05.bdry", &[table.clone(), c.to_string(), l.clone(), r.clone(), limit], out);
+                }
+                if j == 0 {
+                    let (fl, fr, fo) = (Some(18usize), Some(4usize), Some(19usize));
+                    for limit in [(count / 2).to_string(), huge.clone()] {
+                        run("C05.dry", &[table.clone(), c.to_string(), l.clone(), r.clone(), fmt_optvar(fl), fmt_optvar(fr), fmt_optvar(fo), limit], out);
+                    }
                 }
             }
         }
